@@ -1,8 +1,11 @@
 // C10 (I/O loops): bytes moved by photon::net::{send, write, sendv, writev, sendmsg, send_n, write_n, sendv_n, writev_n,
-// read, recv, readv, recvmsg, read_n, readv_n} over a stub kernel stream socket are ordered, complete and exactly-once;
-// return values / errno follow the stream contract; the number of syscalls is bounded.
+// read, recv, readv, recvmsg, read_n, readv_n}, by two consecutive calls, and by KernelSocketStream::{read, write, recv, send, readv,
+// writev} over a stub kernel stream socket are ordered, complete and exactly-once; return values / errno follow the stream contract
+// (full count unless EOF / error / timeout; -1 with the errno preserved, ETIMEDOUT for a timeout; single-shot calls move 1..count bytes);
+// every readiness wait carries the deadline fixed at the start of the call; the number of system calls is bounded.
 // Real code: net/basic_socket.cpp + net/basic_socket.h (doio_once, doio_loop, BufStep, BufStepV and the wrappers),
-// common/iovector.cpp (iovector_view::extract_front used by BufStepV) - both included textually.
+// common/iovector.cpp (iovector_view::extract_front used by BufStepV), net/kernel_socket.cpp (KernelSocketStream, OP >= 50) - all
+// included textually.  One operation per job (-DOP=k).
 // Stub: rt/sockstub.c (the ::read/::readv/::recv/::recvmsg/::send/::sendmsg/::write/::writev system calls and the readiness
 // wait), reached through a stub MasterEventEngine installed as the current vCPU's master engine.
 #include "verif_h.h"
@@ -10,6 +13,9 @@
 #include <stdlib.h>
 #include "common/iovector.cpp"
 #include "net/basic_socket.cpp"
+#if defined(OP) && OP >= 50
+#include "net/kernel_socket.cpp"
+#endif
 
 #ifndef NEL
 #define NEL 3
@@ -39,12 +45,24 @@
 #define R_RECVMSG 23
 #define R_READ_N 30
 #define R_READV_N 31
-#define IS_WRITE (OP < 20)
-#define IS_LOOP (OP >= 10 && OP < 20 || OP >= 30)
-#define IS_VEC (OP == W_SENDV || OP == W_WRITEV || OP == W_SENDMSG || OP == W_SENDV_N || OP == W_WRITEV_N || OP == R_READV || OP == R_RECVMSG || OP == R_READV_N)
+#define S_WRITE_N_SEND 40       // two calls on the same stream: write_n(A) then send(B)
+#define S_READ_N_RECV 41        // read_n(A) then recv(B)
+// the stream object itself: net/kernel_socket.cpp KernelSocketStream (read/write/readv/writev loop until the full count, recv/send
+// are single-shot; every call derives its absolute deadline once from the stream timeout)
+#define K_READ 50
+#define K_WRITE 51
+#define K_RECV 52
+#define K_SEND 53
+#define K_READV 54
+#define K_WRITEV 55
+#define IS_KSTREAM (OP >= 50)
+#define IS_SEQ (OP >= 40 && OP < 50)
+#define IS_WRITE (OP < 20 || OP == S_WRITE_N_SEND || OP == K_WRITE || OP == K_SEND || OP == K_WRITEV)
+#define IS_LOOP (OP >= 10 && OP < 20 || OP >= 30 && OP < 40 || OP == K_READ || OP == K_WRITE || OP == K_READV || OP == K_WRITEV)
+#define IS_VEC (OP == W_SENDV || OP == W_WRITEV || OP == W_SENDMSG || OP == W_SENDV_N || OP == W_WRITEV_N || OP == R_READV || OP == R_RECVMSG || OP == R_READV_N || OP == K_READV || OP == K_WRITEV)
 
 #define SK_FD 5
-#define FLEN (IS_VEC ? MLEN : TMAX)     // longest single element
+#define FLEN (IS_VEC ? MLEN : IS_SEQ ? 3 : TMAX)     // longest single element
 
 extern "C" {
 void sk_setup(uint32_t srclen, uint32_t cap, uint32_t kintr, uint32_t kagain, uint32_t err_ok, uint64_t deadline);
@@ -116,6 +134,17 @@ static void mk_flat(Shape& s)
     for (int k = 0; k < TMAX; k++) { uint8_t x = nondet_u8(); if (k < n) { b[k] = x; init_bytes[k] = x; } }
     s.cnt = 1; s.bp[0] = b; s.ln[0] = n; s.total = n; s.iov = nullptr;
 }
+// two consecutive flat buffers A and B (exact-size blocks of 0..3 bytes each), used by two consecutive calls
+static void mk_seq(Shape& s)
+{
+    uint8_t la = nondet_u8(), lb = nondet_u8(); ASSUME(la <= 3 && lb <= 3);
+    uint8_t bytes[6];
+    for (int i = 0; i < 6; i++) bytes[i] = nondet_u8();
+    uint8_t* a = blk_0(la); uint8_t* b = blk_1(lb);
+    for (int k = 0; k < 3; k++) { if (k < la) { a[k] = bytes[k]; init_bytes[k] = bytes[k]; } }
+    for (int k = 0; k < 3; k++) { if (k < lb) { b[k] = bytes[3 + k]; init_bytes[la + k] = bytes[3 + k]; } }
+    s.cnt = 2; s.bp[0] = a; s.ln[0] = la; s.bp[1] = b; s.ln[1] = lb; s.total = la + lb; s.iov = nullptr;
+}
 // current content of the user buffer, element after element (shape as it was before the call: *_n functions consume the iovec array)
 static void flatten(const Shape& s, uint8_t* out)
 {
@@ -135,13 +164,24 @@ void harness_doio()
     cur_thread.vcpu = &vcpu.v;
     CURRENT = (thread*)&cur_thread;
     now = nondet_u64();
+#if IS_KSTREAM
+    // the stream's relative timeout (microseconds; -1 = none); the deadline every wait must carry is fixed when the call starts
+    static Raw<net::KernelSocketStream> ks;
+    net::KernelSocketStream* stream = new (&ks.v) net::KernelSocketStream(SK_FD);
+    uint64_t rel = nondet_u64();
+    stream->timeout(rel);
+    uint64_t deadline = rel ? sat_add(now, rel) : 0;
+#else
     uint64_t deadline = nondet_u64();
     Timeout tmo; tmo.expiration(deadline);
+#endif
 
     static Shape s;
 #if IS_VEC
     // net::readv refuses iovcnt <= 0 with EINVAL before any I/O (explicit guard in the code): outside the claim
     mk_iov(s, (OP == R_READV || OP == R_READV_N) ? 1 : 0);
+#elif IS_SEQ
+    mk_seq(s);
 #else
     mk_flat(s);
 #endif
@@ -153,9 +193,7 @@ void harness_doio()
 
     errno = 0;
     ssize_t r;
-#ifdef NOCALL
-    r = 0;
-#elif OP == W_SEND
+#if OP == W_SEND
     r = net::send(SK_FD, s.bp[0], T, 0, tmo);
 #elif OP == W_WRITE
     r = net::write(SK_FD, s.bp[0], T, tmo);
@@ -187,6 +225,30 @@ void harness_doio()
     r = net::read_n(SK_FD, s.bp[0], T, tmo);
 #elif OP == R_READV_N
     r = net::readv_n(SK_FD, s.iov, s.cnt, tmo);
+#elif OP == K_READ
+    r = stream->read(s.bp[0], T);
+#elif OP == K_WRITE
+    r = stream->write(s.bp[0], T);
+#elif OP == K_RECV
+    r = stream->recv(s.bp[0], T, 0);
+#elif OP == K_SEND
+    r = stream->send(s.bp[0], T, 0);
+#elif OP == K_READV
+    r = stream->readv(s.iov, s.cnt);
+#elif OP == K_WRITEV
+    r = stream->writev(s.iov, s.cnt);
+#elif OP == S_WRITE_N_SEND
+    ssize_t r1 = net::write_n(SK_FD, s.bp[0], s.ln[0], tmo), r2 = 0;
+    if (r1 >= 0) CHECK((size_t)r1 == s.ln[0], "write_n returns the full count unless an error or timeout occurred");
+    if (r1 == (ssize_t)s.ln[0]) r2 = net::send(SK_FD, s.bp[1], s.ln[1], 0, tmo);
+    r = r1 < 0 ? r1 : r2 < 0 ? r2 : r1 + r2;
+    if (r2 > 0 && r1 > 0) WITNESS("second call continued the stream");
+#elif OP == S_READ_N_RECV
+    ssize_t r1 = net::read_n(SK_FD, s.bp[0], s.ln[0], tmo), r2 = 0;
+    if (r1 == (ssize_t)s.ln[0]) r2 = net::recv(SK_FD, s.bp[1], s.ln[1], 0, tmo);
+    r = r1 < 0 ? r1 : r2 < 0 ? r2 : r1 + r2;
+    if (r1 >= 0) CHECK((size_t)r1 == (s.ln[0] < sk_get(Q_SRC_LEN) ? s.ln[0] : sk_get(Q_SRC_LEN)), "read_n returns the full count unless the peer closed");
+    if (r2 > 0 && r1 > 0) WITNESS("second call continued the stream");
 #endif
     const int e = errno;
     const uint32_t calls = sk_get(Q_CALLS), waits = sk_get(Q_WAITS), nintr = sk_get(Q_INTR), nagain = sk_get(Q_AGAIN);
@@ -239,15 +301,15 @@ void harness_doio()
     CHECK(!sk_get(Q_BADFD), "only the given descriptor is used");
     CHECK(!sk_get(Q_BADDEADLINE), "every wait carries the caller's absolute deadline (not extended by retries)");
     CHECK(waits == nagain, "one readiness wait per EAGAIN");
-    CHECK(calls <= moved + nintr + nagain + 1, "number of system calls is bounded by bytes moved + EINTR + EAGAIN + 1");
-#if !IS_LOOP
+    CHECK(calls <= moved + nintr + nagain + (IS_SEQ ? 2 : 1), "number of system calls is bounded by bytes moved + EINTR + EAGAIN + 1 per call");
+#if !IS_LOOP && !IS_SEQ
     CHECK(calls <= nintr + nagain + 1, "a single-shot call issues one system call plus retries");
 #endif
     CHECK(calls >= 1, "at least one system call is issued");
 
     if (r == -1 && sk_get(Q_TIMEDOUT)) WITNESS("timeout");
     if (r >= 0 && nintr == KINTR && nagain == KAGAIN) WITNESS("success after EINTR and EAGAIN");
-    if (r == (ssize_t)T && T == TMAX) WITNESS("full-size transfer");
+    if (r == (ssize_t)T && T == (IS_SEQ ? 6 : TMAX)) WITNESS("full-size transfer");
     if (T == 0) WITNESS("zero-length request");
 #if IS_LOOP
     if (r == (ssize_t)T && calls >= 3 && nintr == 0 && nagain == 0) WITNESS("resumed after partial transfers");
